@@ -82,7 +82,7 @@ Definition W_EXPECTED : wiring :=
     [DManual; DSubgroup; DParent; DFieldDefault; DFactory; DStoreTrue; DStoreFalse]
     true
     [GOptional; GDefaultNone; GDefaultsAllNone]
-    [CCtor; CCli] NmWithoutRoot NmDefault [NmWithoutRoot].
+    [CCtor; CCli] NmWithoutRoot NmDefault [NmWithoutRoot] true true.
 
 (* postprocess under that wiring, written out (Leaf.v's postprocess covers what a parse can produce; the remaining shapes a
    default can have are listed first) *)
@@ -123,6 +123,7 @@ Section Generic.
 
   Let enc' := encode_cfg enc.
   Hypothesis HW : W = W_EXPECTED.
+  Hypothesis Hedn : edn = true.
 
   Let fin := finish_default str2bool emc edn W E.
   Let vvc := value_via_config str2bool emc edn W E.
@@ -132,11 +133,11 @@ Section Generic.
 
   (* ---------- the interpreted tables, under the expected wiring ---------- *)
   Lemma fin_ref t d :
-    fin t d = bind (argparse_default str2bool emc E t (arg_options t) (as_argparse_default edn E t d)) (post_ref t).
+    fin t d = bind (argparse_default str2bool emc W E t (arg_options t) (as_argparse_default edn W E t d)) (post_ref t).
   Proof.
-    unfold fin, finish_default. rewrite HW.
-    destruct (argparse_default str2bool emc E t (arg_options t) (as_argparse_default edn E t d)); [|reflexivity].
-    cbn [bind]. apply post_expected.
+    unfold fin, finish_default.
+    destruct (argparse_default str2bool emc W E t (arg_options t) (as_argparse_default edn W E t d)); [|reflexivity].
+    cbn [bind]. rewrite HW. apply post_expected.
   Qed.
 
   Lemma field_default_ref defn v :
@@ -211,15 +212,25 @@ Section Generic.
   Qed.
 
   (* ---------- from the default to the constructor argument ---------- *)
+  (* every member default of a (non-Optional) Enum field reaches argparse as its name *)
+  Lemma as_default_ref t d :
+    as_argparse_default edn W E t d = match t, d with TEnum _, VEnum m => VStr m | _, _ => d end.
+  Proof. unfold as_argparse_default. rewrite Hedn, HW. destruct t; destruct d; reflexivity. Qed.
+
   Lemma as_default_not_enum t d :
-    match t with TEnum _ => False | _ => True end -> as_argparse_default edn E t d = d.
-  Proof. unfold as_argparse_default. destruct edn; [|reflexivity]. destruct t; intros H; try reflexivity. destruct H. Qed.
+    match t with TEnum _ => False | _ => True end -> as_argparse_default edn W E t d = d.
+  Proof. rewrite as_default_ref. destruct t; intros H; try reflexivity. destruct H. Qed.
+
+  (* a member default of an Optional[Enum] field is used as it is, str-mixin or not (the by-name converter returns members unchanged) *)
+  Lemma argparse_member_opt u a m :
+    argparse_default str2bool emc W E (TOpt u) a (VEnum m) = Ok (VEnum m).
+  Proof. unfold argparse_default. rewrite HW. destruct (is_str_member E (TOpt u)); reflexivity. Qed.
 
   (* a live Python object that is an instance of the annotation passes through unchanged *)
   Lemma finish_live t d :
-    cfg_type t = true -> has_type d t = true -> d <> VNone -> defn_enum_safe E t (Some d) = true -> fin t d = Ok d.
+    cfg_type t = true -> has_type d t = true -> d <> VNone -> fin t d = Ok d.
   Proof.
-    intros Hc Ht Hn Hsafe. rewrite fin_ref.
+    intros Hc Ht Hn. rewrite fin_ref.
     destruct t as [| | | | |ms|cs|u|ts|u|u]; try discriminate Hc.
     - destruct d; try discriminate Ht. rewrite as_default_not_enum by exact I. reflexivity.
     - destruct d; try discriminate Ht. rewrite as_default_not_enum by exact I. reflexivity.
@@ -227,19 +238,14 @@ Section Generic.
     - destruct d; try discriminate Ht. rewrite as_default_not_enum by exact I. reflexivity.
     - destruct d; try discriminate Ht. rewrite as_default_not_enum by exact I. reflexivity.
     - destruct d; try discriminate Ht. cbn [has_type] in Ht.
-      cbn [defn_enum_safe] in Hsafe. apply negb_true_iff in Hsafe.
-      unfold as_argparse_default. destruct edn.
-      + destruct (is_falsy_member E ms m).
-        * unfold argparse_default. rewrite Hsafe. reflexivity.
-        * cbn. rewrite Ht. reflexivity.
-      + unfold argparse_default. rewrite Hsafe. reflexivity.
+      rewrite as_default_ref. cbn. rewrite Ht. reflexivity.
     - destruct d; try discriminate Ht. rewrite as_default_not_enum by exact I. reflexivity.
     - destruct d; try discriminate Ht. rewrite as_default_not_enum by exact I. reflexivity.
     - destruct d; try discriminate Ht. rewrite as_default_not_enum by exact I. reflexivity.
     - rewrite as_default_not_enum by exact I.
       destruct d; try (exfalso; apply Hn; reflexivity);
         destruct u; try discriminate Hc; try discriminate Ht; try reflexivity.
-      cbn [defn_enum_safe] in Hsafe. apply negb_true_iff in Hsafe. unfold argparse_default. rewrite Hsafe. reflexivity.
+      rewrite argparse_member_opt. reflexivity.
   Qed.
 
   (* ---------- values read from the file ---------- *)
@@ -250,8 +256,7 @@ Section Generic.
     destruct t; try discriminate Hi; destruct v; try discriminate Ht;
       try (rewrite as_default_not_enum by exact I); try reflexivity.
     - rewrite reload_path. reflexivity.
-    - rewrite reload_enum. cbn [has_type] in Ht. unfold as_argparse_default.
-      destruct edn; cbn; rewrite Ht; reflexivity.
+    - rewrite reload_enum. cbn [has_type] in Ht. rewrite as_default_ref. cbn. rewrite Ht. reflexivity.
   Qed.
 
   Lemma finish_reload_opt_scalar u v : is_item u = true -> has_type v u = true -> fin (TOpt u) (reload v) = Ok v.
@@ -311,10 +316,10 @@ Section Generic.
     end.
 
   Theorem leaf_characterised t defn v :
-    cfg_type t = true -> defn_typed t defn = true -> has_type v t = true -> defn_enum_safe E t defn = true ->
+    cfg_type t = true -> defn_typed t defn = true -> has_type v t = true ->
     vvc t defn (enc' v) = Ok (comes_back defn v).
   Proof.
-    intros Hc Hd Ht Hsafe.
+    intros Hc Hd Ht.
     destruct (match v with VNone => true | _ => false end) eqn:Enull.
     - (* None was saved: only an Optional field can hold it; the definition default takes over *)
       destruct v; try discriminate Enull. rewrite vvc_null.
@@ -323,7 +328,7 @@ Section Generic.
       + destruct (match d with VNone => true | _ => false end) eqn:Ed.
         * destruct d; try discriminate Ed. apply finish_opt_none.
         * assert (Hlive : fin (TOpt u) d = Ok d).
-          { apply finish_live; [exact Hc|exact Hd| |exact Hsafe]. intro H; subst d; discriminate Ed. }
+          { apply finish_live; [exact Hc|exact Hd|]. intro H; subst d; discriminate Ed. }
           destruct d; try discriminate Ed; exact Hlive.
       + apply finish_opt_none.
     - assert (Hn : v <> VNone) by (intro H; subst v; discriminate Enull).
@@ -375,18 +380,8 @@ Section Generic.
     items_plain t = true -> not_null_over_default defn v = true ->
     vvc t defn (enc' v) = Ok v.
   Proof.
-    intros Hc Hd Ht Hp Hn.
-    destruct (match v with VNone => true | _ => false end) eqn:Enull.
-    - (* None saved: the definition default is None or absent, so no member default is involved *)
-      assert (Hsafe : defn_enum_safe E t defn = true).
-      { destruct v; try discriminate Enull. destruct defn as [d|]; [destruct d; try discriminate Hn|]; reflexivity. }
-      rewrite (leaf_characterised t defn v Hc Hd Ht Hsafe).
-      rewrite (comes_back_id t defn v Hc Ht Hp Hn). reflexivity.
-    - (* a value: the definition default plays no part *)
-      assert (Hnn : v <> VNone) by (intro H; subst v; discriminate Enull).
-      rewrite (vvc_nonnull t defn v Hnn), <- (vvc_nonnull t None v Hnn).
-      rewrite (leaf_characterised t None v Hc eq_refl Ht eq_refl).
-      rewrite (comes_back_id t None v Hc Ht Hp); [reflexivity|]. destruct v; reflexivity.
+    intros Hc Hd Ht Hp Hn. rewrite (leaf_characterised t defn v Hc Hd Ht).
+    rewrite (comes_back_id t defn v Hc Ht Hp Hn). reflexivity.
   Qed.
 
   (* ---------- trees of dataclasses: the loop composes leaf by leaf ---------- *)
@@ -448,14 +443,14 @@ Section Generic.
   Qed.
 
   (* with the None guard in postprocess' tuple branch, the fields of a None member are processed without error *)
-  Lemma as_default_none t : as_argparse_default edn E t VNone = VNone.
-  Proof. unfold as_argparse_default. destruct edn; [destruct t|]; reflexivity. Qed.
+  Lemma as_default_none t : as_argparse_default edn W E t VNone = VNone.
+  Proof. rewrite as_default_ref. destruct t; reflexivity. Qed.
 
   Lemma member_loads_ok : forall s,
-    member_loads s = true -> enum_defaults_safe E s = true -> absent_err str2bool emc edn W E s = None.
+    member_loads s = true -> absent_err str2bool emc edn W E s = None.
   Proof.
-    apply (schema_nested_ind (fun s => member_loads s = true -> enum_defaults_safe E s = true -> absent_err str2bool emc edn W E s = None)).
-    - intros t defn H Hsafe. cbn [absent_err enum_defaults_safe] in *.
+    apply (schema_nested_ind (fun s => member_loads s = true -> absent_err str2bool emc edn W E s = None)).
+    - intros t defn H. cbn [absent_err] in *.
       assert (Hnone : fin t VNone = Ok VNone).
       { destruct t; try (rewrite fin_ref; rewrite as_default_none; reflexivity).
         apply finish_opt_none. }
@@ -466,21 +461,20 @@ Section Generic.
         * assert (Hd : d <> VNone) by (intro E'; subst d; discriminate Ed).
           assert (H' : cfg_type t && has_type d t = true) by (destruct d; try exact H; discriminate Ed).
           apply andb_true_iff in H'. destruct H' as [Hc Ht].
-          pose proof (finish_live t d Hc Ht Hd Hsafe) as Hl.
+          pose proof (finish_live t d Hc Ht Hd) as Hl.
           destruct d; try (rewrite Hl; reflexivity); discriminate Ed.
       + rewrite Hnone. reflexivity.
-    - intros fs IH H Hsafe. cbn [member_loads enum_defaults_safe absent_err] in *.
+    - intros fs IH H. cbn [member_loads absent_err] in *.
       induction IH as [|[n s'] r Hhd _ IHr]; [reflexivity|].
       cbn [forallb snd first_err_fields] in *. apply andb_true_iff in H. destruct H as [H1 H2].
-      apply andb_true_iff in Hsafe. destruct Hsafe as [S1 S2].
-      rewrite (Hhd H1 S1). apply IHr; assumption.
-    - intros s IH H Hsafe. cbn [member_loads enum_defaults_safe absent_err] in *. apply IH; assumption.
+      rewrite (Hhd H1). apply IHr; assumption.
+    - intros s IH H. cbn [member_loads absent_err] in *. apply IH; assumption.
   Qed.
 
   (* the property's quantifier and the side conditions give the leaf-wise premise *)
   Lemma quantifier_all2 : forall l1 l2,
-    all2b in_quantifier l1 l2 = true -> all2b (side_conditions E) l1 l2 = true ->
-    Forall (fun kv => forall x, in_quantifier (snd kv) x = true -> side_conditions E (snd kv) x = true -> loops (snd kv) x) l1 ->
+    all2b in_quantifier l1 l2 = true -> all2b side_conditions l1 l2 = true ->
+    Forall (fun kv => forall x, in_quantifier (snd kv) x = true -> side_conditions (snd kv) x = true -> loops (snd kv) x) l1 ->
     all2P loops l1 l2.
   Proof.
     induction l1 as [|[n s'] r1 IH]; intros [|[m x'] r2] Hq Hs HF; try discriminate Hq; [exact I|].
@@ -491,9 +485,9 @@ Section Generic.
     - apply IH; assumption.
   Qed.
 
-  Lemma quantifier_loops : forall s x, in_quantifier s x = true -> side_conditions E s x = true -> loops s x.
+  Lemma quantifier_loops : forall s x, in_quantifier s x = true -> side_conditions s x = true -> loops s x.
   Proof.
-    apply (schema_nested_ind (fun s => forall x, in_quantifier s x = true -> side_conditions E s x = true -> loops s x)).
+    apply (schema_nested_ind (fun s => forall x, in_quantifier s x = true -> side_conditions s x = true -> loops s x)).
     - intros t d x Hq Hs. destruct x as [v|xs|w]; try discriminate Hq.
       cbn [in_quantifier] in Hq. cbn [side_conditions] in Hs. cbn [loops].
       apply andb_true_iff in Hq. destruct Hq as [Hq Ht]. apply andb_true_iff in Hq. destruct Hq as [Hc Hd].
@@ -526,7 +520,7 @@ Section Generic.
   Qed.
 
   Theorem tree_loop sfx s x :
-    str_in sfx four_suffixes = true -> in_quantifier s x = true -> side_conditions E s x = true ->
+    str_in sfx four_suffixes = true -> in_quantifier s x = true -> side_conditions s x = true ->
     config_loop str2bool emc enc exts edn W E sfx s x = Ok x.
   Proof.
     intros Hs Hq Hc. unfold config_loop. fold tod. rewrite (roundtrip_plain sfx (tod x) Hs (to_dict_plain x)).
@@ -590,10 +584,10 @@ Section Generic.
 
   (* defect #8 in general: None saved over a definition default d gives d back *)
   Theorem null_falls_back u d :
-    cfg_type (TOpt u) = true -> has_type d (TOpt u) = true -> d <> VNone -> defn_enum_safe E (TOpt u) (Some d) = true ->
+    cfg_type (TOpt u) = true -> has_type d (TOpt u) = true -> d <> VNone ->
     vvc (TOpt u) (Some d) (enc' VNone) = Ok d.
   Proof.
-    intros Hc Ht Hn Hsafe. rewrite vvc_null. pose proof (finish_live (TOpt u) d Hc Ht Hn Hsafe) as H.
+    intros Hc Ht Hn. rewrite vvc_null. pose proof (finish_live (TOpt u) d Hc Ht Hn) as H.
     destruct d; exact H.
   Qed.
 
@@ -631,7 +625,7 @@ Section Generic.
   Qed.
 
   Theorem tree_meets_spec sfx s x :
-    str_in sfx four_suffixes = true -> in_quantifier s x = true -> side_conditions E s x = true ->
+    str_in sfx four_suffixes = true -> in_quantifier s x = true -> side_conditions s x = true ->
     spec_loop s x (config_loop str2bool emc enc exts edn W E sfx s x) = true.
   Proof.
     intros Hs Hq Hc. rewrite (tree_loop sfx s x Hs Hq Hc). unfold spec_loop.
@@ -645,6 +639,7 @@ Lemma gen_path : assoc "PathLike" encode_table_gen = Some EFspath. Proof. vm_com
 Lemma gen_list : assoc "list" encode_table_gen = Some ESeq. Proof. vm_compute. reflexivity. Qed.
 Lemma gen_tuple : assoc "tuple" encode_table_gen = Some ESeq. Proof. vm_compute. reflexivity. Qed.
 Lemma gen_wiring : wiring_gen = W_EXPECTED. Proof. reflexivity. Qed.
+Lemma gen_edn : enum_default_as_name_gen = true. Proof. reflexivity. Qed.
 
 (* get_arg_options still gives every kind of field the type= / action= that Model/Leaf.v's arg_options (reused here for the converter a
    str default is passed through) mirrors *)
@@ -696,45 +691,45 @@ Theorem witness_tuple_enum :
 Proof. vm_compute. reflexivity. Qed.
 
 Theorem leaf_characterised_gen : forall E t defn v,
-  cfg_type t = true -> defn_typed t defn = true -> has_type v t = true -> defn_enum_safe E t defn = true ->
+  cfg_type t = true -> defn_typed t defn = true -> has_type v t = true ->
   value_via_config_gen E t defn (encode_cfg_gen v) = Ok (comes_back_gen defn v).
-Proof. intros E. exact (leaf_characterised str2bool_gen enum_miss_cls_gen encode_table_gen enum_default_as_name_gen wiring_gen E gen_enum gen_path gen_list gen_tuple gen_wiring). Qed.
+Proof. intros E. exact (leaf_characterised str2bool_gen enum_miss_cls_gen encode_table_gen enum_default_as_name_gen wiring_gen E gen_enum gen_path gen_list gen_tuple gen_wiring gen_edn). Qed.
 
 Theorem leaf_partial_gen : forall E t defn v,
   cfg_type t = true -> defn_typed t defn = true -> has_type v t = true ->
   items_plain t = true -> not_null_over_default defn v = true ->
   value_via_config_gen E t defn (encode_cfg_gen v) = Ok v.
-Proof. intros E. exact (leaf_partial str2bool_gen enum_miss_cls_gen encode_table_gen enum_default_as_name_gen wiring_gen E gen_enum gen_path gen_list gen_tuple gen_wiring). Qed.
+Proof. intros E. exact (leaf_partial str2bool_gen enum_miss_cls_gen encode_table_gen enum_default_as_name_gen wiring_gen E gen_enum gen_path gen_list gen_tuple gen_wiring gen_edn). Qed.
 
 Theorem scalar_loop_gen : forall E t defn v,
   is_item t = true -> has_type v t = true -> value_via_config_gen E t defn (encode_cfg_gen v) = Ok v.
-Proof. intros E. exact (scalar_loop str2bool_gen enum_miss_cls_gen encode_table_gen enum_default_as_name_gen wiring_gen E gen_enum gen_path gen_list gen_tuple gen_wiring). Qed.
+Proof. intros E. exact (scalar_loop str2bool_gen enum_miss_cls_gen encode_table_gen enum_default_as_name_gen wiring_gen E gen_enum gen_path gen_list gen_tuple gen_wiring gen_edn). Qed.
 
 Theorem tuple_loop_gen : forall E ts defn vs,
   forallb plain_item ts = true -> has_type (VTup vs) (TTupFix ts) = true ->
   value_via_config_gen E (TTupFix ts) defn (encode_cfg_gen (VTup vs)) = Ok (VTup vs).
-Proof. intros E. exact (tuple_loop str2bool_gen enum_miss_cls_gen encode_table_gen enum_default_as_name_gen wiring_gen E gen_enum gen_path gen_list gen_tuple gen_wiring). Qed.
+Proof. intros E. exact (tuple_loop str2bool_gen enum_miss_cls_gen encode_table_gen enum_default_as_name_gen wiring_gen E gen_enum gen_path gen_list gen_tuple gen_wiring gen_edn). Qed.
 
 Theorem optional_none_gen : forall E u defn,
   match defn with Some VNone | None => True | _ => False end ->
   value_via_config_gen E (TOpt u) defn (encode_cfg_gen VNone) = Ok VNone.
-Proof. intros E. exact (optional_none str2bool_gen enum_miss_cls_gen encode_table_gen enum_default_as_name_gen wiring_gen E gen_wiring). Qed.
+Proof. intros E. exact (optional_none str2bool_gen enum_miss_cls_gen encode_table_gen enum_default_as_name_gen wiring_gen E gen_wiring gen_edn). Qed.
 
 Theorem optional_some_gen : forall E u defn v,
   is_item u = true -> has_type v u = true -> value_via_config_gen E (TOpt u) defn (encode_cfg_gen v) = Ok v.
-Proof. intros E. exact (optional_some str2bool_gen enum_miss_cls_gen encode_table_gen enum_default_as_name_gen wiring_gen E gen_enum gen_path gen_list gen_tuple gen_wiring). Qed.
+Proof. intros E. exact (optional_some str2bool_gen enum_miss_cls_gen encode_table_gen enum_default_as_name_gen wiring_gen E gen_enum gen_path gen_list gen_tuple gen_wiring gen_edn). Qed.
 
 Theorem null_falls_back_gen : forall E u d,
-  cfg_type (TOpt u) = true -> has_type d (TOpt u) = true -> d <> VNone -> defn_enum_safe E (TOpt u) (Some d) = true ->
+  cfg_type (TOpt u) = true -> has_type d (TOpt u) = true -> d <> VNone ->
   value_via_config_gen E (TOpt u) (Some d) (encode_cfg_gen VNone) = Ok d.
-Proof. intros E. exact (null_falls_back str2bool_gen enum_miss_cls_gen encode_table_gen enum_default_as_name_gen wiring_gen E gen_wiring). Qed.
+Proof. intros E. exact (null_falls_back str2bool_gen enum_miss_cls_gen encode_table_gen enum_default_as_name_gen wiring_gen E gen_wiring gen_edn). Qed.
 
 Theorem list_comes_back_gen : forall E u defn vs,
   value_via_config_gen E (TList u) defn (encode_cfg_gen (VList vs)) = Ok (VList (map reload_gen vs)).
-Proof. intros E. exact (list_comes_back str2bool_gen enum_miss_cls_gen encode_table_gen enum_default_as_name_gen wiring_gen E gen_enum gen_path gen_list gen_tuple gen_wiring). Qed.
+Proof. intros E. exact (list_comes_back str2bool_gen enum_miss_cls_gen encode_table_gen enum_default_as_name_gen wiring_gen E gen_enum gen_path gen_list gen_tuple gen_wiring gen_edn). Qed.
 Theorem tupfix_comes_back_gen : forall E ts defn vs,
   value_via_config_gen E (TTupFix ts) defn (encode_cfg_gen (VTup vs)) = Ok (VTup (map reload_gen vs)).
-Proof. intros E. exact (tupfix_comes_back str2bool_gen enum_miss_cls_gen encode_table_gen enum_default_as_name_gen wiring_gen E gen_enum gen_path gen_list gen_tuple gen_wiring). Qed.
+Proof. intros E. exact (tupfix_comes_back str2bool_gen enum_miss_cls_gen encode_table_gen enum_default_as_name_gen wiring_gen E gen_enum gen_path gen_list gen_tuple gen_wiring gen_edn). Qed.
 Theorem reload_enum_gen : forall m, reload_gen (VEnum m) = VStr m.
 Proof. exact (reload_enum encode_table_gen gen_enum). Qed.
 Theorem reload_path_gen : forall s, reload_gen (VPath s) = VStr s.
@@ -744,14 +739,14 @@ Theorem tree_compose_gen : forall E s x, loops_gen E s x -> load_cfg_gen E s (So
 Proof. intros E. exact (tree_compose str2bool_gen enum_miss_cls_gen encode_table_gen enum_default_as_name_gen wiring_gen E gen_wiring). Qed.
 
 Theorem tree_loop_gen : forall E sfx s x,
-  str_in sfx four_suffixes = true -> in_quantifier s x = true -> side_conditions E s x = true ->
+  str_in sfx four_suffixes = true -> in_quantifier s x = true -> side_conditions s x = true ->
   config_loop_gen E sfx s x = Ok x.
-Proof. intros E. exact (tree_loop str2bool_gen enum_miss_cls_gen encode_table_gen extensions_gen enum_default_as_name_gen wiring_gen E gen_enum gen_path gen_list gen_tuple gen_exts gen_wiring). Qed.
+Proof. intros E. exact (tree_loop str2bool_gen enum_miss_cls_gen encode_table_gen extensions_gen enum_default_as_name_gen wiring_gen E gen_enum gen_path gen_list gen_tuple gen_exts gen_wiring gen_edn). Qed.
 
 Theorem tree_meets_spec_gen : forall E sfx s x,
-  str_in sfx four_suffixes = true -> in_quantifier s x = true -> side_conditions E s x = true ->
+  str_in sfx four_suffixes = true -> in_quantifier s x = true -> side_conditions s x = true ->
   spec_loop s x (config_loop_gen E sfx s x) = true.
-Proof. intros E. exact (tree_meets_spec str2bool_gen enum_miss_cls_gen encode_table_gen extensions_gen enum_default_as_name_gen wiring_gen E gen_enum gen_path gen_list gen_tuple gen_exts gen_wiring). Qed.
+Proof. intros E. exact (tree_meets_spec str2bool_gen enum_miss_cls_gen encode_table_gen extensions_gen enum_default_as_name_gen wiring_gen E gen_enum gen_path gen_list gen_tuple gen_exts gen_wiring gen_edn). Qed.
 
 Theorem routes_same_gen : forall E via a dest sfx s x,
   str_in sfx four_suffixes = true -> config_run_gen E via a dest sfx s x = config_loop_gen E sfx s x.
@@ -759,24 +754,26 @@ Proof. intros E. exact (routes_same str2bool_gen enum_miss_cls_gen encode_table_
 
 (* Optional[Class] = None members *)
 Theorem optional_member_none_gen : forall E s,
-  member_loads s = true -> enum_defaults_safe E s = true ->
+  member_loads s = true ->
   load_cfg_gen E (SOpt s) (Some (to_dict_gen (ILeaf VNone))) = Ok (ILeaf VNone).
 Proof.
-  intros E s H Hs. unfold load_cfg_gen, to_dict_gen. cbn [to_dict encode_cfg load_cfg].
-  rewrite (member_loads_ok str2bool_gen enum_miss_cls_gen enum_default_as_name_gen wiring_gen E gen_wiring s H Hs). reflexivity.
+  intros E s H. unfold load_cfg_gen, to_dict_gen. cbn [to_dict encode_cfg load_cfg].
+  rewrite (member_loads_ok str2bool_gen enum_miss_cls_gen enum_default_as_name_gen wiring_gen E gen_wiring gen_edn s H). reflexivity.
 Qed.
 
-(* members of a (str, Enum) class as definition defaults (Tag = EMPTY '' | A 'a' | B 'b'): argparse takes them for str defaults.
-   Optional[Tag] = Tag.A with None saved: the fallback default is sent through the by-name converter -> usage error;
-   a None member whose class has `t: Tag = Tag.EMPTY` (falsy, so not turned into its name): str(member) is looked up -> KeyError *)
+(* regression witnesses: members of a (str, Enum) class as definition defaults (Tag = EMPTY '' | A 'a' | B 'b'); argparse takes them for
+   str defaults.  Optional[Tag] = Tag.A with None saved used to end in a usage error (repaired by repo commit e04e845: the by-name
+   converter returns members unchanged); a None member whose class has `t: Tag = Tag.EMPTY` used to raise KeyError (repaired by repo
+   commit e9c428e: a falsy member is turned into its name too) *)
 Definition TAG_ENV : enum_env := mkenv [["EMPTY"; "A"; "B"]] [(["EMPTY"; "A"; "B"], "EMPTY")].
 Theorem witness_str_enum_optional_default :
-  value_via_config_gen TAG_ENV (TOpt (TEnum ["EMPTY"; "A"; "B"])) (Some (VEnum "A")) (encode_cfg_gen VNone) = Err (Exit 2).
+  value_via_config_gen TAG_ENV (TOpt (TEnum ["EMPTY"; "A"; "B"])) (Some (VEnum "A")) (encode_cfg_gen VNone) = Ok (VEnum "A").
 Proof. vm_compute. reflexivity. Qed.
 Theorem witness_str_enum_falsy_default :
   load_cfg_gen TAG_ENV (SOpt (SNode [("t", SLeaf (TEnum ["EMPTY"; "A"; "B"]) (Some (VEnum "EMPTY")))])) (Some (to_dict_gen (ILeaf VNone)))
-  = Err (Raise "KeyError").
-Proof. vm_compute. reflexivity. Qed.
+  = Ok (ILeaf VNone)
+  /\ finish_default_gen TAG_ENV (TEnum ["EMPTY"; "A"; "B"]) (VEnum "EMPTY") = Ok (VEnum "EMPTY").
+Proof. vm_compute. split; reflexivity. Qed.
 (* an IntEnum member is written by name and comes back as the member, falsy or not (Prio = ZERO 0 | LOW 1 | HIGH 3) *)
 Theorem witness_int_enum :
   value_via_config_gen (mkenv [] [(["ZERO"; "LOW"; "HIGH"], "ZERO")]) (TEnum ["ZERO"; "LOW"; "HIGH"]) (Some (VEnum "ZERO")) (encode_cfg_gen (VEnum "HIGH"))
